@@ -1389,3 +1389,13 @@ mut("x-c09-enum-flag-raised-unconditionally", "C09", A,
     """                if !this.is_writeable() && this.is_final_stream() {""",
     """                if !this.is_writeable() {""",
     "R9.4/poll_read/writeable-guard", "writeable raised without reaching the final stream (flag as a private enum)", base="u2-r8")
+
+mut("c14-clone-shares-wait-group", "C14", A,
+    """        Self { config: self.config.clone(), sema: self.sema.clone(), stop, wg: WaitGroup::new() }""",
+    """        Self { config: self.config.clone(), sema: self.sema.clone(), stop, wg: self.wg.clone() }""",
+    "R14.6/runner-wg", "a cloned runner shares the wait group: its shutdown waits for the other runner's tokens (seed C14-f)",
+    extra=[("src/async_io/util.rs", "#[derive(Default)]\npub(crate) struct WaitGroup(", "#[derive(Clone, Default)]\npub(crate) struct WaitGroup(")])
+mut("c11-into-skip-sum-overflows", "C11", "src/parser/request.rs",
+    """        if (payload_rem | u16::from(padding_rem)) == 0 {""",
+    """        if payload_rem + u16::from(padding_rem) == 0 {""",
+    "R11.8/into_skip", "65535 + 1 wraps (release) or panics (debug): the body of an abort record is not skipped (seed C11-f)")
